@@ -174,6 +174,9 @@ pub fn instrument(stmts: &[Stmt], names: &[&str]) -> Vec<Stmt> {
     let mut out = Vec::new();
     for st in stmts {
         let st2 = match st {
+            // a capture of one fixed text stays as it is: its text must not depend on the probes, so that the same
+            // text can be captured twice with something else bound in between
+            Stmt::Capture(_, b) if b.len() == 1 && matches!(b[0], Stmt::Text(_)) => st.clone(),
             Stmt::Capture(n, b) => Stmt::Capture(n.clone(), instrument_body(b, names)),
             Stmt::IfChanged(b) => Stmt::IfChanged(instrument_body(b, names)),
             Stmt::If { unless, cond, body, elsifs, else_ } => Stmt::If {
